@@ -4,6 +4,7 @@ patch="$1"; shift
 cd /repo || exit 9
 git diff --quiet || { echo "/repo is dirty"; exit 9; }
 git apply "$patch" || { echo "patch does not apply"; exit 9; }
+export PYVC_EVIDENCE_DIR=/tmp/seed_evidence PYVC_REPLAY_DIR=/tmp/seed_replays
 for p in "$@"; do
   (cd /verif && ./check "$p" quick 2>&1 | grep -v WARNING | grep -E "VIOLATION|KNOWN|quick:|CHECKER|UNDECIDED" | cut -c1-260 | head -12; echo "exit=$?")
 done
